@@ -7,9 +7,9 @@ Everything here still decides from the current source only (no execution of repo
   T4 option plumbing: a keyword option of a public function that is never read is a dropped option (INFO)
   T5 the property's own self-test variants are re-run on scratch copies; the catch rate is recorded in the evidence
      (checker validation - never a VIOLATION of the property)
-  T6 the check is re-run on 132 behaviour-preserving AST transformations of the core files (tools/neutral.py): a false alarm makes the
+  T6 the check is re-run on 198 behaviour-preserving AST transformations of the core files (tools/neutral.py): a false alarm makes the
      run UNDECIDED (exit 2), never a VIOLATION
-  T7 the check is re-run on the 76 behaviour-preserving refactorings written by independent sub-agents (seeded_neutral/): same convention
+  T7 the check is re-run on the 152 behaviour-preserving refactorings written by independent sub-agents (seeded_neutral/): same convention
 """
 import ast
 import itertools
@@ -188,7 +188,7 @@ def selftest_rate(ctx):
 
 
 def neutral_rate(ctx):
-    """T6: the property's check is re-run on 132 behaviour-preserving transformations of the core files (tools/neutral.py): all must stay clean.
+    """T6: the property's check is re-run on 198 behaviour-preserving transformations of the core files (tools/neutral.py): all must stay clean.
     Checker validation only - a false alarm here is reported as UNDECIDED (the check is not to be trusted), never as a VIOLATION of the property."""
     if ctx.P.repo != '/repo':
         return
@@ -202,7 +202,7 @@ def neutral_rate(ctx):
 
 
 def refactoring_rate(ctx):
-    """T7: the property's check is re-run on the behaviour-preserving refactorings written by independent sub-agents (seeded_neutral/, 76 of them: helper
+    """T7: the property's check is re-run on the behaviour-preserving refactorings written by independent sub-agents (seeded_neutral/, 152 of them: helper
     extraction, guard clauses, loop <-> comprehension, renamed private parameters, recursion -> iteration, ...). Checker validation only: a refactoring whose
     patch no longer applies to the tree under analysis is skipped; an alarm on one that applies is reported as UNDECIDED, never as a VIOLATION."""
     if ctx.P.repo != '/repo':
